@@ -30,6 +30,9 @@ struct op {
 	int a, b, c;
 	long v;
 	int skip;
+	/* planned suspension inside this operation (usim_stall_plan): ordinal of the atomic access, length in steps */
+	unsigned char stall_ord;
+	unsigned short stall_len;
 };
 
 struct script {
@@ -53,6 +56,29 @@ static inline void script_apply_skips(struct script *s, int nthreads)
 		for (i = 0; i < s[t].nops; i++)
 			s[t].ops[i].skip = (int) usim_paramf(0, "skip.%d.%d", t, i);
 	}
+}
+
+/*
+ * One operation in `one_in` is suspended for a while at one of its first `maxord`
+ * atomic accesses (an enqueuer between its tail exchange and its link store, a
+ * reader standing on a node, an updater between its two phase flips ...): the
+ * intermediate states the properties quantify over. Drawn at generation time.
+ */
+static inline void op_stall_gen(struct op *op, int one_in, int maxord)
+{
+	op->stall_ord = rnd(one_in) == 0 ? (unsigned char) (1 + rnd(maxord)) : 0;
+	op->stall_len = (unsigned short) (100 + rnd(3000));
+}
+
+static inline void op_stall_begin(const struct op *op)
+{
+	if (op->stall_ord)
+		usim_stall_plan(op->stall_ord, op->stall_len);
+}
+
+static inline void op_stall_end(void)
+{
+	usim_stall_cancel();
 }
 
 /* index of the last op that will execute, or -1 */
